@@ -143,26 +143,55 @@ def _reachable(mod, roots: list[ast.AST], classes: list[ast.ClassDef]) -> set[in
     return seen
 
 
-def _consistent_blocked(cfg: CFG, node, fn: ast.AST) -> list[tuple[object, str]]:
-    """Branch edges that contradict the guards of `node`: another test with the same text whose tested names are
-    never re-assigned in the function cannot go the other way on the same path."""
+def _reassigned_names(fn: ast.AST) -> set[str]:
     from ..astx import assigned_names
 
-    reassigned = set()
+    out: set[str] = set()
     for s in walk_shallow(fn):
-        if isinstance(s, ast.stmt):
-            reassigned |= assigned_names(s) if isinstance(s, (ast.Assign, ast.AugAssign, ast.AnnAssign, ast.For, ast.AsyncFor, ast.With, ast.AsyncWith)) else set()
-    out = []
+        if isinstance(s, (ast.Assign, ast.AugAssign, ast.AnnAssign, ast.For, ast.AsyncFor, ast.With, ast.AsyncWith)):
+            out |= assigned_names(s)
+        elif isinstance(s, ast.NamedExpr) and isinstance(s.target, ast.Name):
+            out.add(s.target.id)
+    return out
+
+
+_PURE_TESTS = {"isinstance", "len", "bool"}
+
+
+def _stable_atoms(test_stmt: ast.AST, positive: bool, reassigned: set[str]) -> set[tuple[str, bool]]:
+    """Normalised facts of one outcome of a test, for the test as written and with its straight-line locals substituted
+    (`flag = isinstance(…)` … `if flag:`); a form that mentions a name the function re-binds, or that awaits / calls anything but isinstance, len, bool, is not stable and is dropped."""
+    out: set[tuple[str, bool]] = set()
+    for variant in (test_stmt.test, expand(test_stmt.test, test_stmt)):
+        if {x.id for x in ast.walk(variant) if isinstance(x, ast.Name) and isinstance(x.ctx, ast.Load) and x.id not in _PURE_TESTS} & reassigned:
+            continue
+        if any(isinstance(x, (ast.Await, ast.NamedExpr)) or (isinstance(x, ast.Call) and call_name(x) not in _PURE_TESTS) for x in ast.walk(variant)):
+            continue  # two evaluations of an awaited / effectful test need not agree
+        out |= set(atoms(variant, positive))
+    return out
+
+
+def _consistent_blocked(cfg: CFG, node, fn: ast.AST) -> list[tuple[object, str]]:
+    """Branch edges that contradict the guards of `node`: an outcome of another test that asserts the negation of a fact
+    known at `node` (same normalised predicate over names that are never re-assigned in the function, locals that hold a
+    test result substituted) cannot lie on a path to `node`."""
+    reassigned = _reassigned_names(fn)
+    known: set[tuple[str, bool]] = set()
+    guard_nodes = set()
     for t, lab in cfg.guards(node):
-        if t.kind != "test":
+        if t.kind != "test" or lab not in ("T", "F") or not hasattr(t.ast, "test"):
             continue
-        txt = ast.unparse(t.ast.test)
-        names = {x.id for x in ast.walk(t.ast.test) if isinstance(x, ast.Name)}
-        if names & reassigned:
+        guard_nodes.add(t)
+        known |= _stable_atoms(t.ast, lab == "T", reassigned)
+    out = []
+    if not known:
+        return out
+    for o in cfg.nodes:
+        if o in guard_nodes or o.kind != "test" or not hasattr(o.ast, "test"):
             continue
-        for o in cfg.nodes:
-            if o is not t and o.kind == "test" and ast.unparse(o.ast.test) == txt:
-                out.append((o, "F" if lab == "T" else "T"))
+        for lab in ("T", "F"):
+            if any((txt, not pol) in known for txt, pol in _stable_atoms(o.ast, lab == "T", reassigned)):
+                out.append((o, lab))
     return out
 
 
@@ -183,12 +212,18 @@ def _stmt_calls(fn: ast.AST, name: str) -> list[ast.Call]:
 
 
 def _guard_isinstance(cfg: CFG, stmt: ast.AST, cls_name: str) -> bool:
+    """`isinstance(<x>, <cls_name>)` is known to be true at `stmt` (path facts: nested if, early return, negated test,
+    a local that holds the test result)."""
     for n in cfg.nodes_of(stmt):
-        for t, lab in cfg.guards(n):
-            if t.kind == "test" and lab == "T":
-                for x in ast.walk(t.ast.test):
-                    if isinstance(x, ast.Call) and call_name(x) == "isinstance" and len(x.args) == 2 and cls_name in ast.unparse(x.args[1]):
-                        return True
+        for txt, pol in facts_at(cfg, n):
+            if not pol or "isinstance" not in txt:
+                continue
+            try:
+                x = ast.parse(txt, mode="eval").body
+            except SyntaxError:
+                continue
+            if isinstance(x, ast.Call) and call_name(x) == "isinstance" and len(x.args) == 2 and cls_name in ast.unparse(x.args[1]):
+                return True
     return False
 
 
@@ -514,6 +549,11 @@ _LIFE = "packages/llama-agents-dbos/src/llama_agents/dbos/journal/lifecycle.py"
 # the repair proposed in the report for C36.R1 (a twin pair is anchored on it so that it becomes active once applied)
 _R1_FIX_ANCHOR = "        await lifecycle.create(run_id)\n"
 
+_W_MARK = ("        if isinstance(event, WorkflowIdleEvent):\n            idle_since = datetime.now(timezone.utc)\n            await self._store.update_handler_status(\n"
+           "                self.run_id, status=\"running\", idle_since=idle_since\n            )\n            self._marked_idle = True\n")
+_W_SPAWN = "        self._runtime._spawn_task(self._runtime._deferred_release(self.run_id))\n"
+_W_OLD = _W_MARK + "        await super().write_to_event_stream(event)\n        if isinstance(event, WorkflowIdleEvent):\n    " + _W_SPAWN
+
 TWINS = [
     # ---- R1
     Twin("R1 complete_release called on the wrong object", _DBI, "            await lifecycle.complete_release(run_id)\n", "            await self._store.complete_release(run_id)\n", "C36.R1"),
@@ -525,8 +565,20 @@ TWINS = [
     Twin("R1 (repaired tree) benign: awaited receiver inline", _DBI, "        lifecycle = await self._get_lifecycle()\n        await lifecycle.create(run_id)\n", "        await (await self._get_lifecycle()).create(run_id)\n", None),
     # ---- R2
     Twin("R2 timer before the marker", _SRV,
-         "        if isinstance(event, WorkflowIdleEvent):\n            idle_since = datetime.now(timezone.utc)\n            await self._store.update_handler_status(\n                self.run_id, status=\"running\", idle_since=idle_since\n            )\n        await super().write_to_event_stream(event)\n",
-         "        await super().write_to_event_stream(event)\n", "C36.R2"),
+         "            await self._store.update_handler_status(\n                self.run_id, status=\"running\", idle_since=idle_since\n            )\n            self._marked_idle = True\n        await super().write_to_event_stream(event)\n",
+         "            self._marked_idle = True\n        await super().write_to_event_stream(event)\n", "C36.R2"),
+    Twin("R2 benign: idle test held in a local, early return before the spawn", _SRV, _W_OLD,
+         "        became_idle = isinstance(event, WorkflowIdleEvent)\n" + _W_MARK.replace("isinstance(event, WorkflowIdleEvent)", "became_idle")
+         + "        await super().write_to_event_stream(event)\n        if not became_idle:\n            return\n" + _W_SPAWN, None),
+    Twin("R2 local idle test: early return inverted (timer for every other event)", _SRV, _W_OLD,
+         "        became_idle = isinstance(event, WorkflowIdleEvent)\n" + _W_MARK.replace("isinstance(event, WorkflowIdleEvent)", "became_idle")
+         + "        await super().write_to_event_stream(event)\n        if became_idle:\n            return\n" + _W_SPAWN, "C36.R2"),
+    Twin("R2 local idle test: marker stored on the other outcome", _SRV, _W_OLD,
+         "        became_idle = isinstance(event, WorkflowIdleEvent)\n" + _W_MARK.replace("isinstance(event, WorkflowIdleEvent)", "not became_idle")
+         + "        await super().write_to_event_stream(event)\n        if not became_idle:\n            return\n" + _W_SPAWN, "C36.R2"),
+    Twin("R2 local idle test re-bound between the marker and the spawn", _SRV, _W_OLD,
+         "        became_idle = isinstance(event, WorkflowIdleEvent)\n" + _W_MARK.replace("isinstance(event, WorkflowIdleEvent)", "became_idle")
+         + "        await super().write_to_event_stream(event)\n        became_idle = isinstance(event, Event)\n        if not became_idle:\n            return\n" + _W_SPAWN, "C36.R2"),
     Twin("R2 timer for every event", _SRV, "        await super().write_to_event_stream(event)\n        if isinstance(event, WorkflowIdleEvent):\n            self._runtime._spawn_task", "        await super().write_to_event_stream(event)\n        if isinstance(event, Event):\n            self._runtime._spawn_task", "C36.R2"),
     Twin("R2 release without waiting", _SRV, "        await asyncio.sleep(self._idle_timeout)\n        await self._release_idle_handler(run_id)\n", "        await asyncio.sleep(0)\n        await self._release_idle_handler(run_id)\n", "C36.R2"),
     Twin("R2 inverted timeout comparison", _SRV, "            if elapsed < self._idle_timeout:\n                return\n", "            if elapsed > self._idle_timeout:\n                return\n", "C36.R2"),
